@@ -21,7 +21,64 @@ import Mathlib.Tactic.NormNum
 
 namespace AITB.Sampling
 
-/-! ## the sampling rule of the als table -/
+/-! ## the checkers the driver evaluates on the implementation's answers are sound and complete -/
+
+/-- `intervalSpec` is the right-hand side of `dense_preimage` -/
+theorem intervalSpec_iff (l : List Rat) (u : Rat) (r : Nat) :
+    intervalSpec l u r = true ↔ r < l.length ∧ cum l r ≤ u ∧ (r + 1 < l.length → u < cum l (r + 1)) := by
+  unfold intervalSpec
+  simp only [Bool.and_eq_true, Bool.or_eq_true, decide_eq_true_eq]
+  constructor
+  · rintro ⟨⟨h1, h2⟩, h3⟩
+    refine ⟨h1, h2, fun h => ?_⟩
+    rcases h3 with h3 | h3
+    · omega
+    · exact h3
+  · rintro ⟨h1, h2, h3⟩
+    refine ⟨⟨h1, h2⟩, ?_⟩
+    by_cases h : r + 1 < l.length
+    · exact Or.inr (h3 h)
+    · exact Or.inl (by omega)
+
+/-- **checker = sampler**: for non-negative entries and a non-negative draw, the clause the driver
+    evaluates on the implementation's answer holds exactly for the index the modelled sampler returns -/
+theorem intervalSpec_iff_sample (l : List Rat) (u : Rat) (r : Nat) (hnn : ∀ x ∈ l, 0 ≤ x) (hu : 0 ≤ u)
+    (hne : l ≠ []) : intervalSpec l u r = true ↔ sampleDense l u = r := by
+  rw [intervalSpec_iff, dense_preimage l u r hnn hu hne]
+
+/-- test: draw 5/8 on `[1/2,1/4,1/4]` is index 1 and nothing else -/
+example : intervalSpec [1/2, 1/4, 1/4] (5/8) 1 = true ∧ intervalSpec [1/2, 1/4, 1/4] (5/8) 2 = false := by
+  constructor <;> decide +kernel
+
+/-! ## `isProbability(const SparseMatrix2D &)` (abs-sum trick) versus the template version -/
+
+theorem absQ_of_nonneg {q : Rat} (h : 0 ≤ q) : absQ q = q := by
+  unfold absQ; split
+  · linarith
+  · rfl
+
+theorem map_absQ_of_nonneg : ∀ (l : List Rat), (∀ x ∈ l, 0 ≤ x) → l.map absQ = l
+  | [], _ => rfl
+  | x :: xs, h => by
+    simp only [List.map_cons]
+    rw [absQ_of_nonneg (h x (by simp)), map_absQ_of_nonneg xs (fun y hy => h y (by simp [hy]))]
+
+/-- every row the template `isProbability` accepts is accepted by the sparse-matrix overload -/
+theorem isProbSparse_of_isProb (l : List Rat) (h : isProb l = true) : isProbSparse l = true := by
+  obtain ⟨hnn, hs⟩ := (dense_isProb_iff l).mp h
+  unfold isProbSparse
+  rw [map_absQ_of_nonneg l hnn]
+  have : eqSmall l.sum 1 = true := by
+    unfold eqSmall; simpa using hs
+  simp [this]
+
+/-- observation (outside C08's quantifier, relevant to C06): the converse fails — the sparse overload
+    accepts a row with a negative entry as long as the absolute sum stays within tolerance -/
+theorem isProbSparse_accepts_negative :
+    isProbSparse [1 + 4/10000000, -(4/10000000)] = true ∧ isProb [1 + 4/10000000, -(4/10000000)] = false := by
+  constructor <;> decide +kernel
+
+/-! ## the sampling rule of the alias table -/
 
 theorem clamp01_nonneg (t : Rat) : 0 ≤ clamp01 t := by
   unfold clamp01; split
